@@ -4,8 +4,8 @@ import numpy as np
 from symx import core
 from .catalogue_common import (ASSUMPTIONS, NAMES, TEMPLATES, UNITS, Env, engine_refusal, flatten, group_dims,  # noqa: F401
                                handler_coverage, install_numpy_patches, is_unyt, leaf_elements, leaf_shape, leaves_equal,
-                               make_registry, numeric_obs, select, tier2_axioms)
-from .common import And, Case, call, check_names, close
+                               make_registry, numeric_obs, select, tier2_axioms, MIXED, MIX_KINDS, make_mixed_registry)
+from .common import And, Case, call, check_names, close, vabs
 
 LEVEL = "other"
 MANIFEST = dict(
@@ -25,9 +25,15 @@ EXPLANATION = (
     "per group. Obligations per path (pc & not P unsat): both runs raise or both return; results have the same structure; a "
     "unit-carrying result has the same dimension and the same SI magnitude d*scale in both runs; a bare result is unchanged; "
     "results of functions in the dimension oracle (selection, reshaping, sorting, rounding, interpolation, location/spread "
-    "statistics, products) are unyt objects of the oracle's dimension; arguments/out= buffers after the call agree likewise.")
+    "statistics, products) are unyt objects of the oracle's dimension; arguments/out= buffers after the call agree likewise. "
+    "Mixed-unit family: F(a@u1, b@u2) with u1 != u2 of one dimension (symbolic scales and offsets) either raises or equals - in SI "
+    "magnitude s*(x-o), bare results exactly - the same F on operands re-expressed by the harness into u1.")
 BOUNDS = {
-    "quick": "the `quick` subset of the template catalogue, shapes (), (2,), (3,), (2,2), (2,3); groups length/time/temperature",
+    "quick": "the `quick` subset of the template catalogue, shapes (), (2,), (3,), (2,2), (2,3); groups length/time/temperature; plus the "
+             "mixed-unit family (both tiers): 48 merging/validating calls (concatenate, stack family, block, append, where, select, choose, "
+             "clip, searchsorted, set functions, insert, place/put/putmask/put_along_axis/fill_diagonal/copyto/setitem/fill, linspace, pad, "
+             "full_like, diff/ediff1d, isclose/allclose, interp, histogram/2d/dd range= and bins=) with operands in two different units of "
+             "one dimension x 3 kinds (symbolic scales; same scale + different symbolic offsets; different scale and offset)",
     "thorough": "the full template catalogue: positional / keyword / out= variants, equal and ragged extents, two different units of one "
                 "dimension inside one call (coherent factor), plus a shape x axis sweep of 25 single-operand functions over (), (1,), (0,), (2,3), "
                 "(3,2), (1,2), (2,2,2); sorting-type functions with axis=None only up to 3 elements",
@@ -133,10 +139,75 @@ def make_case(t):
                 weight=t.weight, max_paths=t.max_paths, budget_s=600.0, conform=t.conform, group=t.key)
 
 
+def si_affine(leaf):
+    s, o = leaf.units.base_value, leaf.units.base_offset
+    if isinstance(o, (int, float)) and o == 0:
+        return [e * s for e in leaf_elements(leaf)]
+    return [(e - o) * s for e in leaf_elements(leaf)]
+
+
+def compare_mixed(ctx, f1, f2, what, slack):
+    """mixed-unit call vs the same call on operands re-expressed into one common unit: same physical quantities"""
+    k1 = [(p, k, (o if k == "t" else None)) for p, k, o in f1]
+    k2 = [(p, k, (o if k == "t" else None)) for p, k, o in f2]
+    norm = lambda ks: [(p, "a" if k in ("n", "b") else k, o) for p, k, o in ks]
+    same = norm(k1) == norm(k2)
+    ctx.require(f"{what}: same structure as the call in one common unit", same, mixed=str(k1)[:200], common=str(k2)[:200])
+    if not same:
+        return
+    for (p, k, x), (_, _, y) in zip(f1, f2):
+        if k not in ("u", "a", "n", "b"):
+            continue
+        if leaf_shape(x) != leaf_shape(y):
+            ctx.require(f"{what} {p}: same shape as the call in one common unit", False)
+        elif k == "u":
+            ctx.require(f"{what} {p}: same dimension as the call in one common unit", x.units.dimensions == y.units.dimensions, mixed=str(x.units), common=str(y.units))
+            ctx.require(f"{what} {p}: same physical quantity as the call in one common unit",
+                        And(*[close(a, b, extra=slack) for a, b in zip(si_affine(x), si_affine(y))]) if x.size else True, mixed=str(x)[:250], common=str(y)[:250])
+        else:
+            ctx.require(f"{what} {p}: same bare result as the call in one common unit", leaves_equal(x, y, exact=False), mixed=str(x)[:250], common=str(y)[:250])
+
+
+def make_mixed_case(t, kind):
+    def h(ctx):
+        from symx.kernels import KernelModel
+        reg, (U1, U2) = make_mixed_registry(ctx, kind, t.groups)
+        slack = (vabs(U1.s * U1.o) + vabs(U2.s * U2.o)) * 1e-6
+        EM = Env(ctx, "q", reg, "M", mix=(U1, U2))
+        rm = call(t.fn, np, EM)
+        del KernelModel.calls[:]
+        if rm[0] == "raise":
+            if ctx.symbolic and engine_refusal(rm[1]):
+                raise core.Unsupported(f"NumPy refused the symbolic payload: {type(rm[1]).__name__}: {rm[1]}"[:300])
+            ctx.require("mixed units: the call raises (allowed)", True)
+            ctx.observe("outcome", "raise:" + type(rm[1]).__name__)
+            return
+        EC = Env(ctx, "q", reg, "C", mix=(U1, U2))
+        rc = call(t.fn, np, EC)
+        del KernelModel.calls[:]
+        if rc[0] == "raise":
+            if ctx.symbolic and engine_refusal(rc[1]):
+                raise core.Unsupported(f"NumPy refused the symbolic payload: {type(rc[1]).__name__}: {rc[1]}"[:300])
+            ctx.require("mixed units: returns although the same call in one common unit raises", False, common=str(rc[1])[:200])
+            return
+        compare_mixed(ctx, flatten(rm[1]), flatten(rc[1]), "result", slack)
+        a1 = [x for n, v in EM.made.items() for x in flatten(v, n)]
+        a2 = [x for n, v in EC.made.items() for x in flatten(v, n)]
+        compare_mixed(ctx, a1, a2, "argument after the call", slack)
+        if t.tier == 1:
+            ctx.observe("result", numeric_obs(rm[1]))
+
+    return Case(f"C07/mixu/{kind}/{t.name}", h, bounds="symbolic: elements, both scales, both offsets", weight=3, max_paths=t.max_paths,
+                budget_s=600.0, oblig_timeout_ms=60000, conform=t.conform, group=t.key)
+
+
 def cases(tier, mods):
     check_names(mods, NAMES)
     install_numpy_patches()
-    return [make_case(t) for t in select(tier, "c07")]
+    out = [make_case(t) for t in select(tier, "c07")]
+    out += [make_mixed_case(t, kind) for kind in MIX_KINDS for t in MIXED
+            if not (kind == "affine" and t.name == "np.histogram/range-both-other")]   # quick and thorough
+    return out
 
 
 def coverage_extra(results, tier):
